@@ -6,6 +6,9 @@ cd "$(dirname "$0")"
 ROOT=$(pwd)
 mkdir -p build evidence
 python3 translator/py_to_coq.py "${VERIF_REPO:-/repo}" coq/theories/Gen || echo "setup: translator reported a broken tie (checks will report it)"
+# redundant ties (decision and loop functions translated from the source; see DESIGN.md section 2, step 1b)
+python3 translator/decisions.py "${VERIF_REPO:-/repo}" coq/theories/Gen || true
+python3 translator/loops.py "${VERIF_REPO:-/repo}" coq/theories/Gen || true
 cd coq
 {
   echo "-Q theories PE"
